@@ -157,9 +157,97 @@ def r15_4(ctx, fx):
     ctx.anchor("R15.4", "register_response bodies with a candidate intake", n, 3, cfg=fx.cfg)
 
 
+def r15_5(ctx, fx):
+    """parallelism accounting of FindNodeContext ("at most the configured number of fresh unanswered requests in flight"): the counter
+    compared with parallelism_factor is moved only in step with the pending set -
+      +1 together with `pending.insert` (schedule_next_peer),
+      -1 only on the Some edge of `pending.remove` (a request is settled once),
+      or recomputed from `self.pending` (a count over the pending entries).
+    A decrement that is neither tied to a removal nor a recomputation can be applied to the same slow peer again on every call, which
+    frees a slot per call and lets the number of fresh requests grow without bound."""
+    FN = "protocol::libp2p::kademlia::query::find_node::FindNodeContext::<T>::"
+    n = 0
+    for key in sorted(fx.find("^" + re.escape(FN) + r"\w+$")):
+        fn = fx.fn(key)
+        for node, s_ in fn.assigns():
+            l = "".join(str(x) for x in s_["lhs"][1:])
+            if not l.endswith(".pending_responses") or s_["rv"]["r"] != "use":
+                continue
+            n += 1
+            ctx.bodies.add((fx.cfg, key))
+            rs = guards.rootstrs(fn, s_["rv"]["o"])
+            kind = "other"
+            ok = False
+            why = ""
+            if any(x.endswith("saturating_add") or x.endswith("checked_add") for x in rs) or any(x.startswith("call:") and "Add" in x for x in rs):
+                kind = "+1"
+                ins = [c.node for c in fn.calls(r"HashMap(<.*>)?::insert$") if ".pending" in fn.recv(c) and ".pending_" not in fn.recv(c)]
+                ok = bool(ins) and node not in fn.reach([fn.entry], avoid=ins)
+                why = "increment only after pending.insert"
+            elif any(x.endswith("saturating_sub") or x.endswith("checked_sub") for x in rs):
+                kind = "-1"
+                rm = [c for c in fn.calls(r"HashMap(<.*>)?::remove$") if ".pending" in fn.recv(c) and ".pending_" not in fn.recv(c)]
+                ok = False
+                for c in rm:
+                    for sw in fn.discr_switches():
+                        if sw[1] and sw[1][0] in fn.copies_of(c.dest[0]) | {c.dest[0]} and fn.only_via(node, sw[0], fn.variant_edges(sw, "Some")):
+                            ok = True
+                why = "decrement only over the Some edge of pending.remove (removal calls in this body: %d)" % len(rm)
+            elif any(re.search(r"Iterator>?::count$|::count$|HashMap(<.*>)?::len$", x) for x in rs) and any(re.search(r"param:_1.*\.pending\b", x) for x in rs):
+                kind = "recount"
+                ok = True
+                why = "recomputed from self.pending"
+            ctx.ob("R15.5", "%s/pending_responses:%s-in-step-with-the-pending-set" % (short(key), kind), ok, site=fn.site(node), cfg=fx.cfg,
+                   detail="%s; roots %s" % (why, sorted(rs)[:8]))
+    ctx.anchor("R15.5", "writes to FindNodeContext.pending_responses", n, 3, cfg=fx.cfg)
+    fn = ctx.fn(fx, FN + "next_action", "R15.5")
+    if fn is not None:
+        is_q = lambda f, o: guards.has_root(f, o, r"\.pending_responses")
+        is_b = lambda f, o: guards.has_root(f, o, r"\.parallelism_factor")
+        facts = guards.edge_facts(fn, is_q, is_b)
+        full = {(sw, lab) for sw, lab, rel, cn in facts if rel in guards.IMPLIES[">="]}
+        sched = [c.node for c in fn.calls(r"FindNodeContext(<.*>)?::schedule_next_peer$")]
+        ctx.anchor("R15.5", "next_action: comparison with parallelism_factor / schedule_next_peer calls", min(len(full), len(sched)), 1, cfg=fx.cfg)
+        inside = [n_ for (sw, lab) in full for n_, l in fn.succs(sw) if l == lab]
+        r = fn.reach(inside)
+        ctx.ob("R15.5", "next_action/no-new-request-when-the-counter-is-at-the-parallelism-factor", bool(full) and not any(x in r for x in sched),
+               site=fn.site(fn.entry), cfg=fx.cfg)
+
+
+def r15_6(ctx, fx):
+    """termination test of FindNodeContext::next_action: with enough responses the lookup goes on exactly while the closest
+    uncontacted candidate is closer to the target than the *furthest* reported response (`responses.last_key_value()`), so every
+    known peer closer than the furthest reported one gets contacted before QuerySucceeded."""
+    fn = ctx.fn(fx, "protocol::libp2p::kademlia::query::find_node::FindNodeContext::<T>::next_action", "R15.6")
+    if fn is None:
+        return
+    is_q = lambda f, o: guards.has_root(f, o, r"BTreeMap(<.*>)?::first_key_value$") and guards.has_root(f, o, r"\.candidates\b")
+    is_b = lambda f, o: guards.has_root(f, o, r"\.responses\b") and not guards.has_root(f, o, r"\.candidates\b")
+    facts = guards.edge_facts(fn, is_q, is_b)
+    ctx.anchor("R15.6", "next_action: comparison candidate distance vs response distance", len({cn for *_, cn in facts}), 1, cfg=fx.cfg)
+    for cn in sorted({cn for *_, cn in facts}):
+        at = fn.at(cn)
+        ops = [at["rv"]["a"], at["rv"]["b"]] if "rv" in at else list(fn.call_at(cn).args)
+        rb = set()
+        for o in ops:
+            if is_b(fn, o):
+                rb |= guards.rootstrs(fn, o)
+        ok = any(re.search(r"BTreeMap(<.*>)?::last_key_value$|BTreeMap(<.*>)?::last_entry$", x) for x in rb) and not any(re.search(r"::first_key_value$|::first_entry$", x) for x in rb)
+        ctx.ob("R15.6", "next_action/candidate-compared-with-the-furthest-response", ok, site=fn.site(cn), cfg=fx.cfg,
+               detail="response-side roots: %s" % sorted(x for x in rb if "BTreeMap" in x))
+    closer = {(sw, lab) for sw, lab, rel, cn in facts if rel == "<"}
+    sched = [c.node for c in fn.calls(r"FindNodeContext(<.*>)?::schedule_next_peer$")]
+    succ = [n for n, _ in fn.aggregates(r"QueryAction$", "QuerySucceeded")]
+    inside = fn.reach([n_ for (sw, lab) in closer for n_, l in fn.succs(sw) if l == lab])
+    ctx.ob("R15.6", "next_action/closer-candidate=>contacted-not-finished", bool(closer) and any(x in inside for x in sched) and not any(x in inside for x in succ),
+           site=fn.site(fn.entry), cfg=fx.cfg, detail="on the `candidate < furthest response` edge the next peer is scheduled and QuerySucceeded is unreachable")
+
+
 def run(ctx):
     fx = ctx.facts("default")
     r15_4(ctx, fx)
     r15_1(ctx, fx)
     r15_2(ctx, fx)
     r15_3(ctx, fx)
+    r15_5(ctx, fx)
+    r15_6(ctx, fx)
